@@ -115,7 +115,13 @@ def explore(contract: Contract, index: Index, registry=None, max_paths=MAX_PATHS
                     for item in contract.ensures(s, args, value):
                         label, f = item[0], item[1]
                         # a clause tagged "lemma" is proved first and then available to later clauses
-                        ctx.oblige(f, f"{label}@{path_id}", kind="ensures", assume_after=(len(item) > 2 and item[2] == "lemma"))
+                        opt = item[2] if len(item) > 2 else None
+                        if isinstance(opt, dict):
+                            # {"isolated": [facts]}: proved from exactly these (already established) facts -- used to hand a
+                            # ground nonlinear-arithmetic core to the solver without the quantified context around it
+                            ctx.oblige(f, f"{label}@{path_id}", kind="ensures", assume_after=bool(opt.get("lemma")), only_hyps=opt["isolated"])
+                        else:
+                            ctx.oblige(f, f"{label}@{path_id}", kind="ensures", assume_after=(opt == "lemma"))
                     for label, g in contract.raises_when(s, args):
                         ctx.oblige(T.Not(g), f"must-raise:{label}@{path_id}", kind="raises", assume_after=False)
                     ctx.cover(f"return@{path_id}")
@@ -128,8 +134,9 @@ def explore(contract: Contract, index: Index, registry=None, max_paths=MAX_PATHS
                 gs = [g for _, g in contract.raises_when(s, args)] + [g for _, g in contract.may_raise(s, args)]
                 if not contract.may_raise_otherwise:
                     ctx.oblige(T.Or(*gs) if gs else False, f"raise-allowed:{exc}@L{line}@{path_id}", kind="raises", assume_after=False)
+            rep.trusted |= ctx.trusted      # assumptions named while the postconditions were stated (e.g. induction steps)
             for o in ctx.obligations:
-                hyps = ctx.assumptions[: o.n_hyps]
+                hyps = ctx.assumptions[: o.n_hyps] if o.only_hyps is None else o.only_hyps
                 goal = o.goal
                 smt = to_smt2(hyps, goal if not o.expect_sat else z3.BoolVal(False))
                 rep.obligations.append(dict(name=o.name, kind=o.kind, line=o.line, status="pending", expect_sat=o.expect_sat))
